@@ -75,7 +75,9 @@ def _include_bytes_scenarios(args):
     root = os.path.join(base, 'ib_%d' % seed)
     for d in ('proj', 'proj/sub', 'inc', 'elsewhere'):
         os.makedirs(os.path.join(root, d), exist_ok=True)
-    contents = {'empty': b'', 'one': b'\x00', 'text': b'hello\nworld\r\n# not a comment\n', 'bin': bytes(range(256)) * 3,
+    contents = {'empty': b'', 'one': b'\x00', 'one-b': b'\xff', 'text': b'hello\nworld\r\n# not a comment\n', 'bin': bytes(range(256)) * 3,
+                'bin-same-size': bytes(reversed(range(256))) * 3,       # same path, same size, other bytes than the case before
+
                 'odd': bytes(rng.randrange(256) for _ in range(1021))}
     places = {'beside': ('proj', 'Blob.BIN', []), 'subdir': ('proj/sub', 'sub/Blob.BIN', []),
               'incdir': ('inc', 'Blob.BIN', ['inc']), 'incdir-sub': ('inc', 'Blob.BIN', ['inc'])}
@@ -290,6 +292,17 @@ SITE_TEMPLATES = {
     'shamt': ('slli x9, x9, {v}', 'slli x9, x9, K'),
     'c-imm': ('c.addi x8, {v}', 'c.addi x8, K'),
     'c-lw': ('c.lw x8, x9, {v}', 'c.lw x8, x9, K'),
+    'c-sw': ('c.sw x8, {v}(x9)', 'c.sw x8, K(x9)'),
+    'c-andi': ('c.andi x8, {v}', 'c.andi x8, K'),
+    'c-li': ('c.li x9, {v}', 'c.li x9, K'),
+    'c-srli': ('c.srli x9, {v}', 'c.srli x9, K'),
+    'c-srai': ('c.srai x10, {v}', 'c.srai x10, K'),
+    'c-slli': ('c.slli x5, {v}', 'c.slli x5, K'),
+    'c-lui': ('c.lui x9, {v}', 'c.lui x9, K'),
+    'c-addi16sp': ('c.addi16sp {v}', 'c.addi16sp K'),
+    'c-addi4spn': ('c.addi4spn x8, {v}', 'c.addi4spn x8, K'),
+    'c-lwsp': ('c.lwsp x5, {v}', 'c.lwsp x5, K'),
+    'c-swsp': ('c.swsp x5, {v}', 'c.swsp x5, K'),
     'db': ('db {v}', 'db K'),
     'dw': ('dw {v}', 'dw K'),
     'pack': ('pack <i {v}', 'pack <i K'),
